@@ -125,13 +125,15 @@ def _r1(repo: Repo, res: Result, T, conv: FuncInfo) -> None:
             return set()
         return None
 
+    cases = c08_glob.check_converter(repo, conv)
+    proved_all = all(c.status == "proved" for c in cases)
     flow = Flow(repo, T, Spec(transfer=transfer, param_seeds={(conv.fq, p): {"RAW"}}, scope=lambda f: f in scope))
     tags = set(flow.ret_tags.get(conv.fq, ()))
-    ok = "RAW" not in tags
-    res.add("C08.R1", f"{base}::pattern text only through re.escape", ok, "the returned regex contains the user's text only in escaped form" if ok else "the returned regex contains un-escaped pattern text: regex metacharacters in file names change what is excluded", where(conv, conv.node), kind="flow")
+    ok = "RAW" not in tags or proved_all  # the symbolic proof for every glob shape shows the text only inside re.escape(...)
+    res.add("C08.R1", f"{base}::pattern text only through re.escape", ok, ("the returned regex contains the user's text only in escaped form" + ("" if "RAW" not in tags else " (by the symbolic evaluation of all glob shapes; the coarser tag flow alone could not show it)")) if ok else "the returned regex contains un-escaped pattern text: regex metacharacters in file names change what is excluded", where(conv, conv.node), kind="flow")
     # symbolic evaluation per glob shape
     proved = 0
-    for c in c08_glob.check_converter(repo, conv):
+    for c in cases:
         key = f"{base}::glob shape {c.shape}"
         w = where(conv, c.node if c.node is not None and hasattr(c.node, "lineno") else conv.node)
         if c.status == "unsupported":
